@@ -122,3 +122,19 @@ def gen_C02(tier, rng):
                 i += k
             prog = ";".join(rng.choice("um") + hx(p) for p in pieces) + ";d;r;u" + hx(msg) + ";d"
             yield (f"hctx.{alg} {prog}", "hist.split")
+
+
+# ----------------------------------------------------------------------------- C20 (sha3 part)
+
+OUT_BYTES = {"sha3_224": 28, "sha3_256": 32, "sha3_384": 48, "sha3_512": 64,
+             "keccak224": 28, "keccak256": 32, "keccak384": 48, "keccak512": 64}
+
+
+def gen_C20(tier, rng):
+    """refusal matrix: the sponge's absorb-after-finalize / nothing-left-to-squeeze panics are unreachable through the
+    `hashing` contexts (every reuse pattern is answered); through the legacy `Digest` wrappers they surface as the
+    `computed` assert and the exact-length `result` buffer"""
+    from . import _refusal
+    for alg, rate in ALGS:
+        yield from _refusal.digest_object_rows(alg, OUT_BYTES[alg], rate, rng)
+        yield from _refusal.context_reuse_rows(alg, rate, rng)
